@@ -334,9 +334,10 @@ def check_C01(tier):
     caps = caps_for(tier)
     scns = (sc.traffic("C01", "bcast", caps=caps) + sc.traffic("C01", "mpmc", caps=caps) +
             sc.uni_traffic("C01", "bcast", caps=caps) + sc.uni_traffic("C01", "mpmc", caps=caps) +
-            sc.traffic("C01", "bcast", fut=True, caps=caps[:2]) + sc.traffic("C01", "mpmc", fut=True, caps=caps[:1]))
+            sc.traffic("C01", "bcast", fut=True, caps=caps[:2]) + sc.traffic("C01", "mpmc", fut=True, caps=caps[:1]) +
+            sc.add_stream_scn("C01a", caps=caps[:2]) + sc.population("C01p", "bcast", caps=caps[:1]))
     return generic_check("C01", tier, ["C01C02"], scns, plans_for(tier), RULE_CONC + RULE_IMPL,
-                         models=[impl_model_stage(["spsc", "mpsc", "spmc", "bcast2", "view"])])
+                         models=[impl_model_stage(["spsc", "mpsc", "spmc", "bcast2", "view", "adddouble"])])
 
 
 def check_C02(tier):
@@ -355,16 +356,18 @@ def check_C03(tier):
               (2, [2], 2, "brecv", True, 0), (1, [2], 3, "brecv", True, 0), (2, [1, 1], 2, "recv", False, 1)]
     scns = (sc.traffic("C03", "bcast", caps=caps, shapes=shapes, probe=True) +
             sc.traffic("C03", "mpmc", caps=caps, shapes=shapes, probe=True) +
-            sc.traffic("C03", "bcast", fut=True, caps=caps[:2], shapes=shapes[:3], probe=True))
+            sc.traffic("C03", "bcast", fut=True, caps=caps[:2], shapes=shapes[:3], probe=True) +
+            sc.add_stream_scn("C03a", caps=caps[:2]) + sc.remove_stream("C03r", "bcast", caps=caps[:2]) +
+            sc.population("C03p", "bcast", caps=caps[:2]))
     # capacity normalisation: requested capacities 0..9, fill a fresh queue, drain, fill again
     gens = []
     for cap in range(0, 10):
         for (fam, fut) in (FAMILIES if tier == "thorough" else FAMILIES[:2]):
             gens.append(dict(family=fam, fut=fut, cap=cap, depth=3, ops=["fillprobe"]))
-    return generic_check("C03", tier, ["C03"], scns, plans_for(tier), RULE_CONC +
+    return generic_check("C03", tier, ["C03", "C01C02"], scns, plans_for(tier), RULE_CONC +
                          "; plus a fill/drain/fill probe for every requested capacity 0..9", gens=None,
                          models=[lambda wd, v, cov, tier: capacity_probe(wd, v, cov, tier),
-                                 impl_model_stage(["mpsc", "bcast2", "spsc", "rmstream"])])
+                                 impl_model_stage(["mpsc", "bcast2", "spsc", "rmstream", "addsole", "adddouble"])])
 
 
 def capacity_probe(wd, v, cov, tier):
@@ -446,7 +449,7 @@ def check_C10(tier):
     scns = (sc.add_stream_scn("C10", caps=caps) + sc.add_stream_scn("C10", caps=caps[:2], fut=True) +
             sc.add_stream_scn("C10", caps=caps[:2], shared_parent=True))
     return generic_check("C10", tier, ["C01C02", "C03", "C06"], scns, plans_for(tier), RULE_CONC + RULE_IMPL,
-                         models=[impl_model_stage(["addsole", "addshared"], expect_fail=("addshared_1",))])
+                         models=[impl_model_stage(["addsole", "adddouble", "addshared"], expect_fail=("addshared_1",))])
 
 
 def check_C11(tier):
@@ -479,6 +482,84 @@ def check_C13(tier):
                          models=[impl_model_stage(["norecv"])])
 
 
+def aux_model_stage(module, configs, mc_defs=""):
+    """Stage factory for the auxiliary design models (MQFut, MQMem): each config is model-checked exhaustively;
+    configs with expect set are seeded specification mutants that TLC must refute."""
+    def stage(wd, v, cov, tier):
+        md.copy_specs(wd)
+        cov.setdefault("model_configs", [])
+        cov.setdefault("spec_mutants_refuted", 0)
+        cov.setdefault("model_invariant_failures", [])
+
+        def run(c):
+            name = c["name"]
+            mod = "MC_%s_%s" % (module, name)
+            with open(os.path.join(wd, mod + ".tla"), "w") as f:
+                f.write("---- MODULE %s ----\nEXTENDS %s\n%s\n====\n" % (mod, module, c.get("defs", "")))
+            cfg = os.path.join(wd, mod + ".cfg")
+            vlib.write_cfg(cfg, constants=c["constants"], invariants=c["invariants"])
+            return c, vlib.tlc(mod + ".tla", cfg, os.path.join(wd, "tlc_" + mod), workers=c.get("workers", 4),
+                               timeout=c.get("timeout", 1500), cwd=wd)
+        sel = [c for c in configs if tier == "thorough" or not c.get("thorough_only")]
+        with cf.ThreadPoolExecutor(max_workers=4) as ex:
+            results = list(ex.map(run, sel))
+        for c, r in results:
+            violated = r["error"] is not None and "violated" in r["out"]
+            if r["error"] and not violated:
+                raise vlib.ToolError("TLC failed on %s/%s: %s\n%s" % (module, c["name"], r["error"], r["out"][-1200:]))
+            cov["states"] += r["distinct"]
+            cov["transitions"] += r["generated"]
+            cov["model_configs"].append({"module": module, "name": c["name"], "distinct_states": r["distinct"],
+                                         "expected": "counterexample" if c.get("expect") else "holds",
+                                         "result": "counterexample" if violated else "holds"})
+            if c.get("expect") and violated:
+                cov["spec_mutants_refuted"] += 1
+            elif c.get("expect") and not violated:
+                log("  [model] %s/%s: seeded specification mutant NOT refuted" % (module, c["name"]))
+            elif violated:
+                cov["model_invariant_failures"].append({"model": module + "/" + c["name"]})
+                log("  [model] %s/%s: invariant violated in the specification (design-level finding)" % (module, c["name"]))
+        log("  [model] %s: %d configs, %d distinct states, %d seeded spec mutants refuted" %
+            (module, len(results), sum(r["distinct"] for _, r in results), cov["spec_mutants_refuted"]))
+    return stage
+
+
+def fut_configs():
+    def c(name, N, sinks, sends, streamof, dd, e1="TRUE", e2="TRUE", expect=False, thorough_only=False):
+        return {"name": name, "defs": "c_SO == %s\nc_DD == %s" % (streamof, dd),
+                "constants": {"N": N, "Sinks": sinks, "Sends": sends, "StreamOf": "<- c_SO", "DirectDrain": "<- c_DD",
+                              "NotifyOnEmptyPoll": e1, "NotifyOnDirectRecv": e2},
+                "invariants": ["NoLostWakeup", "TypeOK"], "expect": expect, "thorough_only": thorough_only}
+    two_shared = '(3 :> "a") @@ (4 :> "a")'
+    return [
+        c("shared", 1, "{1,2}", 1, two_shared, "{}"),
+        c("shared_n2", 2, "{1,2}", 2, two_shared, "{}"),
+        c("separate", 1, "{1}", 2, '(2 :> "a") @@ (3 :> "b")', "{}"),
+        c("direct", 1, "{1}", 2, '(2 :> "a")', "{2}"),
+        c("mixed", 1, "{1,2}", 1, '(3 :> "a") @@ (4 :> "a") @@ (5 :> "b")', "{5}", thorough_only=True),
+        c("three", 2, "{1,2}", 2, '(3 :> "a") @@ (4 :> "a") @@ (5 :> "a")', "{}", thorough_only=True),
+        c("mut_no_empty_notify", 1, "{1,2}", 1, two_shared, "{}", e1="FALSE", expect=True),
+        c("mut_no_direct_notify", 1, "{1}", 2, '(2 :> "a")', "{2}", e2="FALSE", expect=True),
+    ]
+
+
+def mem_configs():
+    def c(name, th, maxobj, maxops, late="FALSE", skip="FALSE", atonce="FALSE", expect=False, thorough_only=False):
+        return {"name": name,
+                "constants": {"Handles": "{1,2,3}", "Churners": "{1,2}", "TH": th, "MaxObj": maxobj, "MaxOps": maxops,
+                              "AnnounceLate": late, "SkipOneToken": skip, "FreeAtOnce": atonce},
+                "invariants": ["NoUseAfterFree", "PublishedAlive", "NoDoubleRetire"], "expect": expect,
+                "thorough_only": thorough_only, "workers": 8}
+    return [
+        c("th1", 1, 4, 3),
+        c("th2", 2, 5, 3),
+        c("th1_deep", 1, 6, 4, thorough_only=True),
+        c("variant_announce_late", 1, 4, 3, late="TRUE"),
+        c("mut_skip_token", 1, 4, 3, skip="TRUE", expect=True),
+        c("mut_free_at_once", 1, 4, 3, atonce="TRUE", expect=True),
+    ]
+
+
 def check_C14(tier):
     caps = caps_for(tier)[:2]
     scns = sc.futures_scn("C14", "bcast", caps=caps, spins=(0, 0)) + sc.futures_scn("C14", "mpmc", caps=caps[:1])
@@ -490,7 +571,9 @@ def check_C14(tier):
     return generic_check("C14", tier, ["C14"], scns, plans_for(tier), RULE_CONC +
                          "; futures handles run on a deterministic executor: a task that got NotReady waits for its "
                          "notification (Notify callback), so a task parked forever is a detected deadlock and is accepted "
-                         "only if the model gives it nothing to do")
+                         "only if the model gives it nothing to do; design level: the park/notify protocol model MQFut "
+                         "is checked exhaustively for NoLostWakeup, and with each repaired notification switched off TLC "
+                         "must find the lost wake-up", models=[aux_model_stage("MQFut", fut_configs())])
 
 
 def check_C15(tier):
@@ -522,7 +605,10 @@ def check_C16(tier):
     return generic_check("C16", tier, ["C16"], scns, plans_for(tier, dfs_cap_quick=1500, rnd_quick=400), RULE_CONC +
                          "; released blocks are poisoned and quarantined for the rest of the run, every shim operation "
                          "on a quarantined address is a uaf event, releasing a block twice a doublefree event; a crash "
-                         "of the run process (poisoned pointer followed) is a violation")
+                         "of the run process (poisoned pointer followed) is a violation; design level: the epoch "
+                         "reclamation model MQMem is checked exhaustively (threshold 1-2) for NoUseAfterFree / "
+                         "NoDoubleRetire, seeded specification mutants must be refuted",
+                         models=[aux_model_stage("MQMem", mem_configs())])
 
 
 def churn_stage(wd, v, cov, tier):
